@@ -27,11 +27,11 @@ pub fn params(prop: &str, tier: Tier) -> Params {
     let env_runs = std::env::var("VERIF_RUNS").ok().and_then(|s| s.parse().ok());
     let (runs, max_bytes, max_files, sweep_one_in) = match (prop, tier) {
         ("C16", Tier::Quick) => (2400, 32 * 1024, 1, 12),
-        ("C16", Tier::Thorough) => (60_000, 256 * 1024, 1, 10),
+        ("C16", Tier::Thorough) => (40_000, 128 * 1024, 1, 10),
         ("C17", Tier::Quick) => (6000, 32 * 1024, 1, 0),
-        ("C17", Tier::Thorough) => (100_000, 256 * 1024, 1, 0),
+        ("C17", Tier::Thorough) => (100_000, 128 * 1024, 1, 0),
         ("C18", Tier::Quick) => (6000, 32 * 1024, 8, 0),
-        ("C18", Tier::Thorough) => (100_000, 256 * 1024, 12, 0),
+        ("C18", Tier::Thorough) => (100_000, 128 * 1024, 12, 0),
         _ => (100, 1024, 1, 0),
     };
     Params {
@@ -47,7 +47,7 @@ fn prop_tag(prop: &str) -> u64 {
 }
 
 fn gen_class(rng: &mut Rng, tier: Tier) -> SizeClass {
-    let large = if tier == Tier::Thorough { 8 } else { 4 };
+    let large = if tier == Tier::Thorough { 5 } else { 4 };
     let x = rng.below(100);
     if x < 2 {
         SizeClass::Empty
@@ -176,6 +176,16 @@ fn base_case(prop: &str, seed: u64, run: u64, opts: &Options, mode: Mode, files:
         extra_args: vec![],
         path_form: PathForm::Explicit,
         path_args: vec![],
+        list_poison: None,
+    }
+}
+
+fn gen_log_level_args(rng: &mut Rng) -> Vec<String> {
+    // levels up to WARN only: INFO and below would put wall-clock durations into the records
+    match rng.below(3) {
+        0 => vec!["--log-level".into(), "OFF".into()],
+        1 => vec!["--log-level=ERROR".into()],
+        _ => vec!["-l".into(), "WARN".into()],
     }
 }
 
@@ -413,6 +423,9 @@ pub fn generate_c16(seed: u64, run: u64, corpus: &Corpus, tier: Tier, stats: &mu
             c.path_args = path_args.clone();
         }
         add_random_faults(&mut rng, &mut c, 0, enc.enc, bom_len, true);
+        if rng.chance(1, 12) {
+            c.extra_args = gen_log_level_args(&mut rng);
+        }
         if mode == Mode::StdinStdout && rng.chance(1, 20) {
             c.knobs.stdout_tty = true;
         }
@@ -477,6 +490,12 @@ pub fn generate_c16(seed: u64, run: u64, corpus: &Corpus, tier: Tier, stats: &mu
                     let fatal = rng.chance(1, 3);
                     add_random_faults(&mut rng, &mut c, ix, e, bl, fatal);
                 }
+            }
+            if form == PathForm::FilesFrom && !c.path_args.is_empty() && rng.chance(1, 4) {
+                c.list_poison = Some(rng.usize_below(c.path_args.len()));
+            }
+            if rng.chance(1, 10) {
+                c.extra_args = gen_log_level_args(&mut rng);
             }
             *stats.by_mode.entry(format!("batch_path_form:{}", form.name())).or_insert(0) += 1;
             cases.push(c);
@@ -547,6 +566,8 @@ pub fn generate_c17(seed: u64, run: u64, corpus: &Corpus, tier: Tier, stats: &mu
     let mut rng = Rng::derive(seed, &[prop_tag("C17"), run]);
     let class = match gen_class(&mut rng, tier) {
         SizeClass::Large if rng.chance(1, 2) => SizeClass::Medium,
+        // more medium-sized texts than elsewhere: codec boundary effects need some length
+        SizeClass::Tiny if rng.chance(1, 2) => SizeClass::Medium,
         c => c,
     };
     let label = if rng.chance(1, 10) { None } else { Some(pick_label(&mut rng)) };
@@ -780,6 +801,9 @@ fn generate_c18_wide(seed: u64, run: u64, rng: &mut Rng, tier: Tier, stats: &mut
             f.exists = false;
             case.files.push(f);
         }
+    }
+    if rng.chance(1, 5) {
+        case.extra_args = gen_log_level_args(rng);
     }
     let n = case.files.len();
     case.workers = rng.range(1, 8) as usize;
@@ -1094,6 +1118,8 @@ persistent: false,
     }
     if rng.chance(1, 30) {
         case.extra_args = vec!["--cursor=0,5".into()];
+    } else if rng.chance(1, 8) {
+        case.extra_args = gen_log_level_args(&mut rng);
     }
     *stats.by_mode.entry(mode.name().to_string()).or_insert(0) += 1;
     *stats.by_policy.entry(policy_name(case.policy.kind).to_string()).or_insert(0) += 1;
